@@ -69,6 +69,27 @@ func init() {
 				return []V{VErr("rit")}
 			}
 			return projectValue(inv)
+		case "rit2":
+			// RemoveIncludedTaxes, serialise, parse, calculate again: must change nothing
+			inv, kind := calcInvoice(a[1].S)
+			if kind != "" {
+				return []V{VErr("rit")}
+			}
+			if err := inv.RemoveIncludedTaxes(); err != nil {
+				return []V{VErr("rit")}
+			}
+			out, err := json.Marshal(inv)
+			if err != nil {
+				return []V{VErr("rit")}
+			}
+			inv2 := new(bill.Invoice)
+			if err := json.Unmarshal(out, inv2); err != nil {
+				return []V{VErr("rit")}
+			}
+			if err := inv2.Calculate(); err != nil {
+				return []V{VErr("rit")}
+			}
+			return projectValue(inv2)
 		case "recalc":
 			// calculate, serialise, parse back, calculate again
 			_, out, kind := calcJSON(a[1].S)
